@@ -123,12 +123,13 @@ package verifspec
 //@ property C19
 //@   requires wf(p)
 //@   assigns f.line, f.column, out(f.Writer)
-//@   requires 0 <= f.line && f.line <= 1000000000000000 && 0 <= f.column && f.column <= 1000000000000000
+//@   requires 0 <= f.line && f.line <= 4000000000000000000 && 0 <= f.column && f.column <= 4000000000000000000
 //@   ghost D = empty()
 //@   panics_only_if f.goMappingCallback != nil
 //@   ensures err == nil ==> n == len(old(p))
 //@   ensures err == nil ==> out(f.Writer) == cat(old(out(f.Writer)), strip(old(p)))
 //@   ensures err == nil ==> f.line == old(f.line) + nl(strip(old(p))) && f.column == col(strip(old(p)), old(f.column))
+//@   ensures err == nil ==> 0 <= f.line && f.line <= old(f.line) + len(old(p)) && 0 <= f.column && f.column <= old(f.column) + len(old(p))
 //@   after FindHint: unfold strip(b)
 //@   after FindHint: unfold wf(b)
 //@   after io.Writer.Write: ghost D = cat(D, seq(p[:n]))
@@ -216,10 +217,13 @@ package verifspec
 //@ axiom wfContents(a []byte, b []byte): (len(a) == len(b) && forall(k, 0, len(a), a[k] == b[k])) ==> (wf(a) == wf(b))
 //@ func internal/sourcemapx.Filter.WriteJS
 //@ property C16
+// (esbuild messages without a location would make the logging code dereference nil: panics are outside this contract)
 //@   panics_only_if true
 // (the source handed in contains no hint bytes: it is hand-written JavaScript)
 //@   requires wf(jsSource)
-//@   requires f != nil && 0 <= f.line && f.line <= 1000000000000000 && 0 <= f.column && f.column <= 1000000000000000
+//@   requires f != nil && 0 <= f.line && f.line <= 4000000000000000000 && 0 <= f.column && f.column <= 4000000000000000000
+//@   assigns f.line, f.column, out(f.Writer)
+//@   ensures err == nil ==> 0 <= f.line && f.line <= old(f.line) + 281474976710656 && 0 <= f.column && f.column <= old(f.column) + 281474976710656
 //@   loop 1 invariant true
 //@   loop 2 invariant true
 //@   loop 3 invariant true
